@@ -405,7 +405,53 @@ func (p c17) statefulPrefix(c *core.Ctx) {
 	c.Nontrivial(fmt.Sprint("statefulprefix|", holds))
 }
 
+// optionalGap: an optional prefix-bound field whose subtree is absent, among configured prefix-bound fields of the same
+// component (in any field order): the configured ones are bound, the absent one stays zero.
+func (p c17) optionalGap(c *core.Ctx) {
+	w := func() string { return plainWords[c.Rng.Intn(len(plainWords))] }
+	name, tags, port := w()+"-srv", []string{w(), w()}, 1+c.Rng.Intn(9000)
+	doc := fmt.Sprintf("gap:\n  name: %s\n  port: %d\n  tags: [%s, %s]\n  labels:\n    a: x\n", name, port, tags[0], tags[1])
+	fields := []world.FieldSpec{
+		{Name: "Name", Type: reflect.TypeOf(""), Tag: `prefix:"gap.name"`},
+		{Name: "Port", Type: reflect.TypeOf(0), Tag: `prefix:"gap.port"`},
+		{Name: "Tags", Type: reflect.TypeOf([]string{}), Tag: `prefix:"gap.tags"`},
+		{Name: "Labels", Type: reflect.TypeOf(map[string]string{}), Tag: `prefix:"gap.labels"`},
+	}
+	for i, n := 0, 1+c.Rng.Intn(2); i < n; i++ {
+		fields = append(fields, world.FieldSpec{Name: fmt.Sprintf("Absent%d", i), Type: []reflect.Type{reflect.TypeOf(""), reflect.TypeOf(0), reflect.TypeOf(world.PoolCfg{}), reflect.TypeOf(&world.PoolCfg{})}[c.Rng.Intn(4)],
+			Tag: fmt.Sprintf(`prefix:"gap.absent%d,required=false"`, i)})
+	}
+	c.Rng.Shuffle(len(fields), func(i, j int) { fields[i], fields[j] = fields[j], fields[i] })
+	h := world.NewHolder(world.BuildStruct(fields))
+	r := world.Start(&world.Scenario{Config: doc}, world.Options{Extra: []any{h}, NoTracer: true})
+	c.Count("starts", 1)
+	c.Count("optional_gap_cases", 1)
+	detail := map[string]any{"document": doc, "holder": describeHolder(h)}
+	if r.Outcome() != "ok" {
+		c.Fail("", "start did not succeed: "+core.Short(r.OutcomeDetail(), 300), detail)
+		return
+	}
+	hv := reflect.ValueOf(h).Elem()
+	got := fmt.Sprint(hv.FieldByName("Name").Interface(), hv.FieldByName("Port").Interface(), hv.FieldByName("Tags").Interface(), hv.FieldByName("Labels").Interface())
+	want := fmt.Sprint(name, port, tags, map[string]string{"a": "x"})
+	if got != want {
+		c.Fail("", fmt.Sprintf("configured prefix-bound fields next to an optional, unconfigured one: bound %s, configured %s", got, want), detail)
+		return
+	}
+	for i := 0; i < hv.NumField(); i++ {
+		if strings.HasPrefix(hv.Type().Field(i).Name, "Absent") && !hv.Field(i).IsZero() {
+			c.Fail("", fmt.Sprintf("optional field %s without configuration holds %v", hv.Type().Field(i).Name, hv.Field(i).Interface()), detail)
+			return
+		}
+	}
+	c.Nontrivial("optionalgap|" + describeHolder(h))
+}
+
 func (p c17) Run(c *core.Ctx) {
+	if c.Index%20 == 12 {
+		p.optionalGap(c)
+		return
+	}
 	if c.Index%20 == 2 {
 		p.jsonLooking(c)
 		return
